@@ -168,6 +168,8 @@ HOSTS = {
     "vector": lambda args: "[" + " ".join(args) + "]",
     "list": lambda args: "(list " + " ".join(args) + ")",
     "interop-method": lambda args: "(.hostm hostobj " + " ".join(args) + ")",
+    # the first element is the TARGET of the method call (wrapped so that it evaluates to the host object), the rest its arguments
+    "interop-target": lambda args: "(.hostm (do " + args[0] + " hostobj) " + " ".join(args[1:]) + ")",
     "python-fn": lambda args: "(python/max 0 " + " ".join(f"(do {a} 1)" for a in args) + ")",
     "recur": lambda args: "(loop* [go true " + " ".join(f"r{i} nil" for i in range(len(args))) + "] (if go (recur false " + " ".join(args) + ") :done))",
 }
@@ -226,7 +228,9 @@ def table_hoist_prediction(host, arity, pos, form, sibs):
             a, b, c = k, k + 1, k + 2
             k += 3
             tr = FORM_TRACE[form](a, b, c)
-            if form == "letfn":
+            if host == "interop-target" and i == 0:
+                first += tr  # statement position inside the wrapping (do .. hostobj): everything is a dependency statement
+            elif form == "letfn":
                 # letfn* only defines functions in its dependency statements: its body stays a residual expression
                 later += tr
             elif form in ("do", "let"):
@@ -238,7 +242,7 @@ def table_hoist_prediction(host, arity, pos, form, sibs):
         else:
             sk = next(sib_iter)
             tr = SIBLINGS[sk][1](k)
-            if sk == "compound":
+            if sk == "compound" or (host == "interop-target" and i == 0):
                 first += tr
             else:
                 later += tr
